@@ -155,6 +155,18 @@ macro_rules! nist_ops {
                 let p = (ProjectivePoint::GENERATOR * s).to_affine();
                 Some(p.to_encoded_point(false).as_bytes().to_vec())
             }
+            /// the encoding of -P
+            pub fn neg_pk(pk: &[u8]) -> Option<Vec<u8>> {
+                let ep = EncodedPoint::from_bytes(pk).ok()?;
+                let ap: Option<AffinePoint> = AffinePoint::from_encoded_point(&ep).into();
+                let q = (-ProjectivePoint::from(ap?)).to_affine();
+                Some(q.to_encoded_point(false).as_bytes().to_vec())
+            }
+            /// n - sk
+            pub fn neg_sk(sk: &[u8]) -> Option<Vec<u8>> {
+                let s = scalar(sk)?;
+                Some((-s).to_repr().to_vec())
+            }
             /// x coordinate of sk * pk
             pub fn dh(sk: &[u8], pk: &[u8]) -> Option<Vec<u8>> {
                 let s = scalar(sk)?;
@@ -265,6 +277,25 @@ impl Kem {
             Kem::P256 => np256::dh(sk, pk),
             Kem::P384 => np384::dh(sk, pk),
             Kem::P521 => np521::dh(sk, pk),
+        }
+    }
+
+    /// NIST curves: the encoding of -P (same x coordinate, hence the same DH output); None for X25519
+    pub fn neg_pk(self, pk: &[u8]) -> Option<Vec<u8>> {
+        match self {
+            Kem::X25519 => None,
+            Kem::P256 => np256::neg_pk(pk),
+            Kem::P384 => np384::neg_pk(pk),
+            Kem::P521 => np521::neg_pk(pk),
+        }
+    }
+    /// NIST curves: n - sk (its public key is -P); None for X25519
+    pub fn neg_sk(self, sk: &[u8]) -> Option<Vec<u8>> {
+        match self {
+            Kem::X25519 => None,
+            Kem::P256 => np256::neg_sk(sk),
+            Kem::P384 => np384::neg_sk(sk),
+            Kem::P521 => np521::neg_sk(sk),
         }
     }
 
